@@ -162,6 +162,53 @@ def gen_plan(rng, family):
                     th.append(["submit", "value"])
             plan["threads"].append(th)
         plan["final"] = "await"
+    elif family == "cancelfail":                # C01 C02 C06: futures cancelled while they wait in the table, then the table is failed (H14)
+        plan["workers"] = rng.choice([1, 1, 2])
+        k = rng.randint(4, 8)                   # more jobs than workers + call-queue slots: the last ones wait in the table
+        for _ in range(k):
+            main.append(["submit", rng.choice(["long", "long", "value"])])
+        for _ in range(rng.choice([1, 1, 2])):
+            main.append(["cancel", k - 1 - rng.randrange(3)])
+        mode = rng.choice(["fatal", "kill", "forced", "forced"])
+        if mode == "fatal":
+            main.insert(rng.randrange(k), ["submit", rng.choice(Sc.FATAL_KINDS)])
+            plan["final"] = "await+submit+shutdown"
+        elif mode == "kill":
+            plan["kill_budget"] = 1
+            plan["final"] = "await+submit+shutdown"
+        else:
+            main.append(["shutdown", "kill"])
+            plan["final"] = "await"
+    elif family == "mix":                       # C01: everything at once -- time-outs, kills, fatal tasks, cancels, threads, resizes
+        plan["workers"] = rng.choice([1, 1, 2, 3])
+        plan["timeout"] = rng.choice([None, 0.05, 0.05])
+        plan["reusable"] = rng.random() < 0.3
+        if plan["reusable"] and plan["timeout"] is None:
+            plan["timeout"] = 10
+        plan["kill_budget"] = rng.choice([0, 0, 1])
+        kinds = ["value", "value", "value", "long", "raise", "badarg", "bigarg", "badresult", "sysexit"] + Sc.FATAL_KINDS
+
+        def ops(k, main_thread):
+            out = []
+            for _ in range(k):
+                u = rng.random()
+                if u < 0.6:
+                    out.append(["submit", rng.choice(kinds)])
+                elif u < 0.7 and main_thread:
+                    out.append(["await_all"])
+                elif u < 0.82:
+                    out.append(["pause"])
+                elif u < 0.9:
+                    out.append(["cancel", rng.randrange(6)])
+                elif plan["reusable"]:
+                    out.append(["resize", rng.choice([1, 2, 3])])
+                else:
+                    out.append(["submit", "value"])
+            return out
+        main.extend(ops(rng.randint(2, 7), True))
+        if rng.random() < 0.4:
+            plan["threads"].append(ops(rng.randint(1, 3), False))
+        plan["final"] = rng.choice(["await+shutdown", "await+submit+shutdown"])
     elif family == "idlefatal":                 # C02: the pool goes idle (its workers time out), then a task kills the worker re-started for it
         plan["timeout"] = 0.05
         plan["workers"] = rng.choice([1, 1, 2])
@@ -435,6 +482,8 @@ def make_program(plan):
             return
         env.notes["flags"] = ex._flags
         if "submit" in fin:
+            # a reusable executor may have been replaced since it broke: only a submit to the broken instance itself must raise
+            env.notes["late_on_broken"] = ex._flags.broken is not None
             try:
                 f = ex.submit(Sc.t_value, -1)
                 env.notes["late_submit"] = "accepted"
@@ -606,7 +655,7 @@ def analyze(plan, r):
         hang_props += ["C09"]
     if kills or fatal_kinds:
         hang_props.append("C02")
-    if fam == "killshutdown":
+    if fam == "killshutdown" or (fam == "cancelfail" and notes.get("shutdown") == "kill"):
         hang_props.append("C06")
     if fam in ("plain", "full", "timeout", "saturate") and not kills:
         hang_props += ["C04", "C03", "C08"]
@@ -624,7 +673,7 @@ def analyze(plan, r):
         if c.startswith("manager:"):
             # the executor manager thread died of an exception: whatever happened to the futures, join_executor_internals() did
             # not run (queues, feeder thread, pipes and semaphores stay), so this is reported even when the run ended properly
-            add(sorted(set(hang_props + ["C20"] + (["C05"] if fam == "shutdown" else []) + (["C06"] if fam == "killshutdown" else []))),
+            add(sorted(set(hang_props + ["C20"] + (["C05"] if fam == "shutdown" else []) + (["C06"] if fam == "killshutdown" or notes.get("shutdown") == "kill" else []))),
                 "manager-crash", f"manager-thread-crashed[{c}] ctx[{ctx}]", str(r.crashes[:2]))
             continue
         if c.startswith("QueueFeederThread:") and not kills and not fatal_kinds and "shutdown-kill" not in ctx and "forced" not in ctx:
@@ -679,7 +728,7 @@ def analyze(plan, r):
         if broken_futs:
             if not any(rec["flags"].broken is not None for rec in env.all_executors):
                 add(["C02"], "broken-flag-missing", f"futures-broken-but-flag-unset ctx[{ctx}]")
-            if "late_submit" in notes and notes["late_submit"] == "accepted":
+            if "late_submit" in notes and notes["late_submit"] == "accepted" and notes.get("late_on_broken", True):
                 add(["C02"], "submit-after-broken-accepted", f"submit-accepted-after-break ctx[{ctx}]",
                     str(notes.get("late_result")))
             alive = [p.pid for rec in env.all_executors if rec["flags"].broken is not None
